@@ -265,6 +265,39 @@ func genE2E(r *rand.Rand, n int, tier, profile string) []string {
 		} else {
 			toks = append(toks, "fl")
 		}
+		if profile == "c03" {
+			// the SAME events under a second, different layout (batching, flush/rotate placement, dictionary limit)
+			toks = append(toks, "H2")
+			if c2 := []int{0, 2, 4, 1000}[r.Intn(4)]; c2 > 0 {
+				toks = append(toks, fmt.Sprintf("card=%d", c2))
+			}
+			var evs []string
+			for _, t := range toks {
+				if strings.HasPrefix(t, "ev/") {
+					evs = append(evs, t)
+				}
+			}
+			if r.Intn(3) == 0 {
+				r.Shuffle(len(evs), func(i, j int) { evs[i], evs[j] = evs[j], evs[i] })
+			}
+			for i, t := range evs {
+				toks = append(toks, t)
+				if r.Intn(3) == 0 || i == len(evs)-1 {
+					toks = append(toks, "send")
+					if r.Intn(2) == 0 {
+						toks = append(toks, "fl")
+					}
+					if r.Intn(6) == 0 {
+						toks = append(toks, "ro")
+					}
+				}
+			}
+			if r.Intn(3) == 0 {
+				toks = append(toks, "ro")
+			} else {
+				toks = append(toks, "fl")
+			}
+		}
 		toks = append(toks, "Q")
 		nq := 3 + r.Intn(6)
 		start, end := e2eBase-1000, maxTs+1000
@@ -611,6 +644,64 @@ func ratOf(v interface{}) string {
 
 func execE2E(line string) Result {
 	f := strings.Fields(line)
+	if len(f) < 3 || f[0] != "e2e" {
+		return Result{Out: "bad-op"}
+	}
+	// optional second layout: e2e <cfg> H <hist> H2 <cfg2…> <hist2> Q <queries>
+	h2 := -1
+	qpos := -1
+	for i, t := range f {
+		if t == "H2" && h2 < 0 {
+			h2 = i
+		}
+		if t == "Q" && qpos < 0 {
+			qpos = i
+		}
+	}
+	if h2 < 0 || qpos < 0 || h2 > qpos {
+		return execE2ELayout(f)
+	}
+	first := append(append([]string{}, f[:h2]...), f[qpos:]...)
+	r1 := execE2ELayout(first)
+	// second layout: its own cfg tokens precede its history
+	second := []string{"e2e"}
+	j := h2 + 1
+	for ; j < qpos && strings.Contains(f[j], "=") && !strings.HasPrefix(f[j], "ev/"); j++ {
+		second = append(second, f[j])
+	}
+	second = append(second, "H")
+	second = append(second, f[j:qpos]...)
+	second = append(second, f[qpos:]...)
+	r2 := execE2ELayout(second)
+	r1.Fails = append(r1.Fails, r2.Fails...)
+	// compare the two layouts query by query (ids as sets per query; stats rows as given)
+	a, b := strings.Split(r1.Out, " | "), strings.Split(r2.Out, " | ")
+	var diff []string
+	if len(a) == len(b) {
+		for qi := range a {
+			if canonSeg(a[qi]) != canonSeg(b[qi]) {
+				diff = append(diff, strconv.Itoa(qi))
+			}
+		}
+	} else {
+		diff = append(diff, "all")
+	}
+	r1.Out += " | kind=layoutdiff q=" + strings.Join(diff, ",")
+	r1.Tags = append(r1.Tags, "two-layouts")
+	return r1
+}
+
+// canonical form of one answer segment for layout-vs-layout comparison: ids sorted (ties may be ordered differently)
+func canonSeg(seg string) string {
+	if strings.HasPrefix(seg, "kind=ids ids=") {
+		ids := strings.Split(strings.TrimPrefix(seg, "kind=ids ids="), ",")
+		sort.Strings(ids)
+		return "kind=ids ids=" + strings.Join(ids, ",")
+	}
+	return seg
+}
+
+func execE2ELayout(f []string) Result {
 	if len(f) < 3 || f[0] != "e2e" {
 		return Result{Out: "bad-op"}
 	}
